@@ -132,11 +132,23 @@ where
     }
 
     fn normalize(&self) -> String {
-        // Tweak everything into canonical form
-        self.as_ref()
+        // Impose some line ending sanity, and remove line continuation markers
+        // and comments: a definition of one step does not pass through
+        // `split_into_steps`, which does the same for pipelines
+        let all = self
+            .as_ref()
             .trim()
-            .trim_matches(':')
+            .replace("\r\n", "\n")
+            .replace('\r', "\n")
             .replace("\n:", "\n")
+            .lines()
+            .map(|line| line.split('#').next().unwrap_or(""))
+            .collect::<Vec<_>>()
+            .join("\n");
+
+        // Tweak everything into canonical form
+        all.trim()
+            .trim_matches(':')
             .split_whitespace()
             .collect::<Vec<_>>()
             .join(" ")
